@@ -13,11 +13,11 @@ PROPS = ["C08/Props.v"]
 CLAUSE = {1: "missing-call", 2: "call-for-unreachable", 3: "called-twice", 4: "event-identity",
           5: "quiet-link-called", 6: "mutation-raised", 7: "call-without-change"}
 FIELD = {0: "value", 1: "f", 2: "g", 3: "kids", 4: "m", 5: "s", 6: "list_items", 7: "dict_items", 8: "set_items",
-         10: "trait_added", 11: "trait_modified", 12: "x1", 13: "x2"}
+         10: "trait_added", 11: "trait_modified", 12: "x1", 13: "x2", 14: "groups", 17: "groups_items"}
 # FilteredTraitObserver nodes (DESIGN 6 C08: "filters are modelled as a set of matching names supplied by the
 # harness"): the model node carries the list of trait names the filter matches on class N; the dynamic traits
 # 12, 13 exist on an object only after add_trait (the model gates every name by trait existence)
-FILTERS = {"anytrait": [0, 1, 2, 3, 4, 5, 10, 11, 12, 13],   # expression.anytrait(): leaf only (mixed value types)
+FILTERS = {"anytrait": [0, 1, 2, 3, 4, 5, 10, 11, 12, 13, 14],   # expression.anytrait(): leaf only (mixed value types)
            "tag": [1, 2, 13],                        # expression.metadata("tag"): f, g (and the dynamic x2) carry tag=True
            "tagc": [3],                              # expression.metadata("tagc"): the List trait kids carries tagc=True
            "match_fg": [1, 2],                       # expression.match(lambda name, trait: name in ("f", "g"))
@@ -51,7 +51,7 @@ def expand(g, dyn=False):
         return [x for c in children for x in expand(c)]
     cs = sorted((x for c in children for x in expand(c)), key=lambda c: json.dumps(c))
     names = FILTERS[head] if isinstance(head, str) else [head]
-    extra = isinstance(head, str) or not 6 <= head <= 8
+    extra = isinstance(head, str) or head not in (6, 7, 8, 17)
     return [[list(names), bool(notify), extra, cs]]
 
 
@@ -94,6 +94,8 @@ def op_term(op, dyn=False):
         return C("Splice", Nat(op[1]), Nat(op[2]), Nat(i), Nat(n), nats(vs))
     if k == "Probe":
         return C("Probe", Nat(op[1]))
+    if k == "CopNew":
+        return C("SpliceCont", Nat(op[1]), Nat(op[2]), Nat(6), Nat(op[5][0]), Nat(op[5][1]), nats(op[4][1]))
     if k == "AddTrait":
         return C("AddTrait", Nat(op[1]), Nat(op[2]))
     raise ValueError(op)
@@ -160,7 +162,7 @@ def opkind(op):
         return "del.%s" % FIELD[op[2]]
     if op[0] == "AddTrait":
         return "AddTrait." + FIELD[op[2]]
-    if op[0] == "Cop":
+    if op[0] in ("Cop", "CopNew"):
         return "%s.%s" % (FIELD[op[2]], op[3])
     if op[0] in ("SetRef", "SetCont", "Touch"):
         return "%s.%s" % (op[0], FIELD[op[2]])
@@ -205,7 +207,7 @@ class Shadow:
     def __init__(self, npool):
         self.npool = npool
         self.ref = {(o, f): None for o in range(npool) for f in (1, 2)}
-        self.cont = {(o, f): None for o in range(npool) for f in (3, 4, 5)}
+        self.cont = {(o, f): None for o in range(npool) for f in (3, 4, 5, 14)}
         self.items = {}      # cid -> list of oid (list, set) / list of (key, oid) (dict)
         self.kind = {}
         self.owner = {}      # cid -> owner object (None when detached)
@@ -219,6 +221,8 @@ class Shadow:
         return out
 
     def values(self, c):
+        if self.kind[c] == 17:          # a dict of lists: the objects in the stored lists
+            return [x for a in self.items[c] for x in self.items[a[1]]]
         return [a[1] for a in self.items[c]] if self.kind[c] == 7 else list(self.items[c])
 
     def reaches(self, a, b):
@@ -323,6 +327,7 @@ def gen_case(rnd, ctx, maxmut, cyclic=False):
         ctx.count("op:" + opkind(op))
 
     follow = []               # container on which a slice just changed the multiplicity of an object
+    want_groups = [False]     # an expression over the dict of lists has been registered
 
     def mutation():
         """One acyclic mutation (None if the drawn one would close a cycle or is impossible)."""
@@ -342,6 +347,36 @@ def gen_case(rnd, ctx, maxmut, cyclic=False):
         r = rnd.random()
         if rnd.random() < 0.04:
             return ["AddTrait", o, rnd.choice([0, 1, 1, 2])]     # add_trait of an existing (class) trait
+        if rnd.random() < (0.3 if want_groups[0] else 0.08):
+            # nested containers: o.groups is a dict of lists
+            c = sh.cont[(o, 14)]
+            if c is None:
+                sh.new_cont(o, 14, [])
+                return ["SetCont", o, 14, [], True]
+            cur = sh.items[c]
+            keys = [a[0] for a in cur]
+            if cur and rnd.random() < 0.3:
+                i = rnd.randrange(len(cur))
+                sh.owner[cur[i][1]] = None
+                key = keys[i]
+                del cur[i]
+                return ["Cop", c, 17, "delitem", [key], [i, 1, []]]
+            key = rnd.choice(["a", "b", "c"])
+            vs = [rnd.randrange(npool) for _ in range(rnd.randint(1, 2))]
+            if any(sh.reaches(v, o) for v in vs):
+                return None
+            cid = sh.next
+            sh.next += 1
+            sh.items[cid], sh.kind[cid], sh.owner[cid] = list(vs), 6, o
+            if key in keys:
+                i = keys.index(key)
+                sh.owner[cur[i][1]] = None
+                cur[i] = [key, cid]
+                sp = [i, 1]
+            else:
+                sp = [len(cur), 0]
+                cur.append([key, cid])
+            return ["CopNew", c, 17, "setitem", [key, vs], sp]
         if r < 0.27:
             f = rnd.choice([1, 2])
             v = rnd.choice(list(range(npool)) + [None, None])
@@ -386,8 +421,8 @@ def gen_case(rnd, ctx, maxmut, cyclic=False):
             sh.new_cont(o, f, [])
             return ["Touch", o, f]
         # in-place container operation, on an attached container or (sometimes) a detached one
-        cands = [c for c in sh.items if sh.owner[c] is not None]
-        det = [c for c in sh.items if sh.owner[c] is None]
+        cands = [c for c in sh.items if sh.owner[c] is not None and sh.kind[c] != 17]
+        det = [c for c in sh.items if sh.owner[c] is None and sh.kind[c] != 17]
         if det and rnd.random() < 0.15:
             c = rnd.choice(det)
         elif cands:
@@ -605,6 +640,11 @@ def gen_case(rnd, ctx, maxmut, cyclic=False):
         if regs and rnd.random() < 0.12:
             k, r, g = rnd.choice(regs)                 # the same registration once more
             ctx.count("expr:registered-again")
+        elif rnd.random() < 0.07:
+            n1, n2, n3 = (rnd.random() < 0.6 for _ in range(3))
+            g = [14, n1, False, [[17, n2, False, [[6, n3, False, [[0, True, False, []]]]]]]]   # groups.items.items.value
+            want_groups[0] = True
+            ctx.count("expr:nested-containers")
         elif rnd.random() < 0.4:
             text = rnd.choice(NAMED)
             g = parse_named(text)
@@ -662,7 +702,10 @@ def gen_case(rnd, ctx, maxmut, cyclic=False):
             probes()
     ctx.count("pool:%d" % npool)
     ctx.count("history-length:%03d" % (10 * (len(ops) // 10)))
-    return dict(npool=npool, shape="cyclic" if cyclic else "acyclic", ops=ops)
+    falsy = rnd.random() < 0.15          # pool objects with __len__: falsy while their kids list is empty
+    if falsy:
+        ctx.count("pool:falsy-objects")
+    return dict(npool=npool, shape="cyclic" if cyclic else "acyclic", ops=ops, falsy=falsy)
 
 
 def probes_for(n):
@@ -712,6 +755,15 @@ def corpus():
     cs.append(dict(npool=3, shape="acyclic", ops=[
         ["SetRef", 0, 1, 1], ["Observe", 0, 0, fv], ["AddTrait", 0, 1]] + probes_for(3) + [
         ["SetRef", 0, 1, 2]] + probes_for(3) + [["AddTrait", 0, 1], ["AddTrait", 0, 0], ["SetRef", 0, 1, 1]] + probes_for(3)))
+    # nested containers: a list stored in a dict under a NEW key must be followed, and the dict event must
+    # carry the list object that is stored
+    ggv = [14, False, False, [[17, True, False, [[6, False, False, [[0, True, False, []]]]]]]]
+    cs.append(dict(npool=4, shape="acyclic", ops=[
+        ["SetCont", 0, 14, [], True], ["CopNew", 4, 17, "setitem", ["a", [1]], [0, 0]], ["Observe", 0, 0, ggv],
+        ["CopNew", 4, 17, "setitem", ["b", [2]], [1, 0]]] + probes_for(4) + [
+        ["Cop", 6, 6, "append", [3], [1, 0, [3]]]] + probes_for(4) + [
+        ["CopNew", 4, 17, "setitem", ["a", [3]], [0, 1]]] + probes_for(4) + [
+        ["Cop", 4, 17, "delitem", ["b"], [1, 1, []]]] + probes_for(4)))
     # finding: del o.kids notifies twice, the new default list is hooked twice; once replaced it keeps calling
     ki = parse_named("kids.items")
     cs.append(dict(npool=3, shape="acyclic-del", name="del-container", ops=[
